@@ -229,8 +229,11 @@ pub struct Snap {
     pub rcur: u32,
     pub fin: bool,
     pub more: bool,
+    pub ral: usize,
+    pub rdg: u32,
 }
 pub fn snap(e: &Enc) -> Snap {
+    use alloc_no_stdlib::SliceWrapper;
     Snap {
         st: e.stream_state_ as i32,
         ip: e.input_pos_,
@@ -261,16 +264,34 @@ pub fn snap(e: &Enc) -> Snap {
         rcur: e.ringbuffer_.cur_size_,
         fin: e.is_finished(),
         more: e.has_more_output(),
+        ral: e.ringbuffer_.data_mo.slice().len(),
+        rdg: ring_digest(e),
     }
+}
+/// FNV-1a over `ringbuffer_.data_mo` at: the 2-byte prefix, the last 32 bytes written, their tail-mirror
+/// cells, the 7 bytes of slack behind the write position (indices beyond the allocation skipped)
+pub fn ring_digest(e: &Enc) -> u32 {
+    use alloc_no_stdlib::SliceWrapper;
+    let rb = &e.ringbuffer_;
+    let d = rb.data_mo.slice();
+    if d.is_empty() { return 0; }
+    let mut idx: Vec<usize> = vec![0, 1];
+    for j in 1..=32u32 { idx.push(2 + (rb.pos_.wrapping_sub(j) & rb.mask_) as usize); }
+    for j in 1..=32u32 { idx.push(2 + rb.size_ as usize + (rb.pos_.wrapping_sub(j) & rb.mask_) as usize); }
+    for i in 0..7usize { idx.push(2 + (rb.pos_ & rb.mask_) as usize + i); }
+    let mut h: u32 = 2166136261;
+    for i in idx { if i < d.len() { h = (h ^ d[i] as u32).wrapping_mul(16777619); } }
+    h
 }
 impl Snap {
     /// digest printed in the correspondence answer (`full` adds the carry value)
-    pub fn digest(&self, full: bool) -> String {
+    pub fn digest(&self, full: bool) -> String { self.digest2(full, full) }
+    pub fn digest2(&self, full: bool, ring: bool) -> String {
         let b = |x: bool| if x { 1 } else { 0 };
         format!(
-            "{},{},{},{},{},{},{},{},{},{},{},{},{},{},{},{},{},{},{},{},{},{},{},{},{},{}",
+            "{},{},{},{},{},{},{},{},{},{},{},{},{},{},{},{},{},{},{},{},{},{},{},{},{},{},{},{}",
             self.st, self.ip, self.lf, self.lp, if full { if self.lbb == 0 { 0 } else { self.lb as i64 } } else { -1 }, self.lbb, self.ao, self.rm, b(self.le), b(self.init), self.to, self.fm,
-            self.q, self.w, self.b, self.hint, b(self.cat), b(self.app), b(self.magic), b(self.lw), self.mode, self.dlcm, b(self.usedict), self.rpos, self.rcur, b(self.fin) * 2 + b(self.more)
+            self.q, self.w, self.b, self.hint, b(self.cat), b(self.app), b(self.magic), b(self.lw), self.mode, self.dlcm, b(self.usedict), self.rpos, self.rcur, b(self.fin) * 2 + b(self.more), self.ral, if ring { self.rdg as i64 } else { -1 }
         )
     }
     /// everything a refused call must leave alone (size_hint excepted: update_size_hint(0)
@@ -1087,8 +1108,15 @@ pub fn run_syms(cfg: &Cfg, syms: &[Sym], variant: usize) -> Session {
 // ---------------------------------------------------------------------------------------------
 /// request line + implementation answer for a recorded history (None if the hook is missing
 /// and the history made a payload-encoder call, or the line would be too long)
-pub fn corr_line(sess: &Session, full: bool) -> Option<(String, String)> {
-    let mut ops = String::from(if full { "stream f" } else { "stream k" });
+pub fn corr_line(sess: &Session, full: bool) -> Option<(String, String)> { corr_line_mode(sess, if full { 0 } else { 1 }) }
+/// the fixed byte sequence of ring-content lines (mode `r`)
+pub fn gen_byte(p: u64) -> u8 { ((p.wrapping_mul(2654435761) / 2048) % 256) as u8 }
+/// mode 0 = full (`f`), 1 = skeleton (`k`), 2 = ring content (`r`: the history's non-metadata input must be gen_byte(0), gen_byte(1), …)
+pub fn corr_line_mode(sess: &Session, mode: u8) -> Option<(String, String)> {
+    let full = mode == 0;
+    let ring = mode != 1;
+    let mut gen_pos: u64 = 0;
+    let mut ops = String::from(match mode { 0 => "stream f", 1 => "stream k", _ => "stream r" });
     let mut ans: Vec<String> = vec![];
     // global bit string of what was delivered (for slicing out the oracle's bits)
     let all = &sess.delivered;
@@ -1097,15 +1125,16 @@ pub fn corr_line(sess: &Session, full: bool) -> Option<(String, String)> {
         match &r.call {
             Call::Set(i, v) => {
                 ops.push_str(&format!(" P:{}:{}", i, v));
-                ans.push(format!("{}:{}", r.ret as u8, r.after.digest(full)));
+                ans.push(format!("{}:{}", r.ret as u8, r.after.digest2(full, ring)));
             }
             Call::Take(n) => {
                 ops.push_str(&format!(" T:{}", n));
-                ans.push(format!("{}:{}:{}", r.produced.len(), if full { hex(&r.produced) } else { "-".into() }, r.after.digest(full)));
+                ans.push(format!("{}:{}:{}", r.produced.len(), if full { hex(&r.produced) } else { "-".into() }, r.after.digest2(full, ring)));
             }
             Call::Stream { op, data, offered, cap } => {
                 if !evhook::HAVE { return None; }
-                let mut tok = format!(" C:{}:{}+{}:{}", op, if full { hex(data) } else { format!("#{}", data.len()) }, offered - data.len(), cap);
+                let intok = if full { hex(data) } else if mode == 2 && *op != OP_METADATA { let t = format!("@{}.{}", gen_pos, data.len()); gen_pos += data.len() as u64; t } else { format!("#{}", data.len()) };
+                let mut tok = format!(" C:{}:{}+{}:{}", op, intok, offered - data.len(), cap);
                 let mut reqs = String::new();
                 for (k, e) in r.events.iter().enumerate() {
                     let nbits = (e.out_size * 8 + e.cb_after as u64) as i64 - e.cb_before as i64;
@@ -1128,7 +1157,7 @@ pub fn corr_line(sess: &Session, full: bool) -> Option<(String, String)> {
                 if r.events.is_empty() { reqs.push('-'); }
                 ops.push_str(&tok);
                 if r.panicked { ans.push("panic".into()); break; }
-                ans.push(format!("{}:{}:{}:{}:{}", r.ret as u8, r.consumed, if full { hex(&r.produced) } else { format!("#{}", r.produced.len()) }, reqs, r.after.digest(full)));
+                ans.push(format!("{}:{}:{}:{}:{}", r.ret as u8, r.consumed, if full { hex(&r.produced) } else { format!("#{}", r.produced.len()) }, reqs, r.after.digest2(full, ring)));
             }
         }
         delivered_before += r.produced.len();
@@ -1285,6 +1314,108 @@ fn stage_fragments(args: &Args, n: usize) -> Vec<TaskOut> {
         judge_plan(&cfg, &ro, &mut rep, true, false);
         TaskOut { lines, rep }
     })
+}
+
+/// ring-content lines: inputs longer than the ring buffer (so that writes wrap, the tail mirror and
+/// the prefix are exercised), quality 2..9 with small windows, chunk sizes around the block size;
+/// the input is the fixed sequence `gen_byte`, the correspondence line (mode `r`) compares the
+/// ring-buffer content digest after every call
+fn stage_ringwrap(args: &Args, n: usize) -> Vec<TaskOut> {
+    let seed = args.seed;
+    par_tasks(n, move |i| {
+        let mut rng = Rng::new(seed ^ 0x41B6 ^ ((i as u64) << 20));
+        let mut rep = Report::default();
+        let mut lines = vec![];
+        if skip_task(i) { return TaskOut { lines, rep }; }
+        set_task(format!("replay: BV_ONLY={} bvh stream c01 --seed {} (ringwrap stage)", i, seed));
+        let q = *rng.pick(&[2u32, 3, 2, 3, 4, 5, 9]);
+        let lgwin = rng.range(10, 14) as u32;
+        let mut cfg = simple_cfg(q, lgwin, rng.chance(1, 4), false, 0);
+        if q >= 4 && rng.chance(1, 2) { cfg.sets.push((3, 16)); }
+        // ring = 2^(1 + max(lgwin, lgblock)): 32 KiB at q2/3, 128 KiB (lgblock 16) above
+        let ring = if q < 4 { 1usize << 15 } else { 1usize << 17 };
+        let total = ring + rng.range(1, ring as u64 / 2) as usize + if rng.chance(1, 3) { ring } else { 0 };
+        let data: Vec<u8> = (0..total as u64).map(gen_byte).collect();
+        let mut reqs = vec![];
+        let mut pos = 0usize;
+        let kind = rng.below(4);
+        while pos < total {
+            let n = match kind {
+                0 => *rng.pick(&[1usize, 7, 100, 5000, 16384, 16385, 30000, 65536]),
+                1 => rng.range(1, 40000) as usize,
+                2 => 1usize << rng.range(8, 16),
+                _ => rng.range(1, 3000) as usize + if rng.chance(1, 4) { 16384 } else { 0 },
+            }.min(total - pos);
+            let op = if rng.chance(1, 12) { OP_FLUSH } else { OP_PROCESS };
+            reqs.push(Req { op, data: data[pos..pos + n].to_vec() });
+            pos += n;
+        }
+        reqs.push(Req { op: OP_FINISH, data: vec![] });
+        let sched = if rng.chance(1, 2) { OutSched::ample() } else { OutSched { caps: vec![4096, 70000, 1000], take_every: 3, take_sizes: vec![0, 5000] } };
+        let ro = drive(&cfg, &reqs, &sched, true);
+        dbg_history("ringwrap", &ro.sess);
+        rep.count("input_class_ringwrap");
+        rep.add("calls", ro.ncalls as u64);
+        judge_plan(&cfg, &ro, &mut rep, true, false);
+        if let Some(l) = corr_line_mode(&ro.sess, 2) { lines.push(l); }
+        TaskOut { lines, rep }
+    })
+}
+
+/// THOROUGH tier only (about 20 s, 2.2 GB): a 2^31-byte ring buffer (lgwin 30, large window) fed more
+/// than 2 GiB; the output is streamed into brotli-decompressor and compared on the fly.  This is the
+/// reproduction of the write-position fold defect (`ringbuffer-fold-lgwin30`): before the fix the
+/// first wrong byte is byte 2^31.
+fn stage_bigring(rep: &mut Report) {
+    use brotli::{BrotliDecompressStream, BrotliResult, BrotliState};
+    fn byte_at(p: u64) -> u8 { let x = (p / 5).wrapping_mul(0x9E3779B97F4A7C15); (x >> 40) as u8 }
+    let total: u64 = (1u64 << 31) + (64 << 20);
+    rep.evaluations += 1;
+    rep.nontrivial += 1;
+    rep.count("input_class_bigring");
+    let r = catch_unwind(AssertUnwindSafe(|| -> Result<(), String> {
+        let mut enc = Enc::new(StandardAlloc::default());
+        enc.set_parameter(BrotliEncoderParameter::BROTLI_PARAM_LARGE_WINDOW, 1);
+        enc.set_parameter(BrotliEncoderParameter::BROTLI_PARAM_QUALITY, 2);
+        enc.set_parameter(BrotliEncoderParameter::BROTLI_PARAM_LGWIN, 30);
+        let mut dec = BrotliState::new(StandardAlloc::default(), StandardAlloc::default(), StandardAlloc::default());
+        dec.large_window = true;
+        let chunk = 1usize << 20;
+        let mut inbuf = vec![0u8; chunk];
+        let mut outbuf = vec![0u8; 1 << 21];
+        let mut decbuf = vec![0u8; 1 << 22];
+        let (mut fed, mut decoded) = (0u64, 0u64);
+        loop {
+            let n = std::cmp::min(chunk as u64, total - fed) as usize;
+            for i in 0..n { inbuf[i] = byte_at(fed + i as u64); }
+            let op = if fed + n as u64 == total { BrotliEncoderOperation::BROTLI_OPERATION_FINISH } else { BrotliEncoderOperation::BROTLI_OPERATION_PROCESS };
+            let mut avail_in = n; let mut in_off = 0usize;
+            loop {
+                let mut avail_out = outbuf.len(); let mut out_off = 0usize;
+                let ok = enc.compress_stream(op, &mut avail_in, &inbuf[..n], &mut in_off, &mut avail_out, &mut outbuf, &mut out_off, &mut None, &mut |_, _, _, _| ());
+                if !ok { return Err(format!("compress_stream returned false at input byte {}", fed)); }
+                let mut d_in = out_off; let mut d_off = 0usize;
+                loop {
+                    let mut d_avail = decbuf.len(); let mut d_out = 0usize; let mut written = 0usize;
+                    let r = BrotliDecompressStream(&mut d_in, &mut d_off, &outbuf[..out_off], &mut d_avail, &mut d_out, &mut decbuf, &mut written, &mut dec);
+                    for i in 0..d_out { if decbuf[i] != byte_at(decoded + i as u64) { return Err(format!("decoded byte {} differs from the input", decoded + i as u64)); } }
+                    decoded += d_out as u64;
+                    match r { BrotliResult::NeedsMoreOutput => continue, BrotliResult::ResultFailure => return Err(format!("decoder error after {} bytes", decoded)), _ => break }
+                }
+                if avail_in == 0 && !enc.has_more_output() { break; }
+            }
+            fed += n as u64;
+            if fed == total { break; }
+        }
+        if decoded != total { return Err(format!("decoded {} of {} bytes", decoded, total)); }
+        Ok(())
+    }));
+    let case = "{\"cfg\": \"quality 2, large_window, lgwin 30\", \"history\": \"2^31 + 64 MiB in 1 MiB PROCESS calls, FINISH\", \"extra\": \"stage bigring (thorough)\"}".to_string();
+    match r {
+        Ok(Ok(())) => rep.count("bigring_roundtrip_ok"),
+        Ok(Err(e)) => rep.violation("stream:roundtrip:bigring", &e, case),
+        Err(_) => rep.violation(&format!("stream:panic:{}", last_panic().split(' ').next().unwrap_or("?")), &format!("bigring: {}", last_panic()), case),
+    }
 }
 
 fn stage_pairs(args: &Args, n: usize) -> Vec<TaskOut> {
@@ -1627,13 +1758,14 @@ pub fn run_cmd(args: &Args) {
     let mut pre_lines = vec![];
     run_corpus(&mut rep, &mut pre_lines);
     let scale = if thorough { 12 } else { 1 };
-    if which == "c01" || which == "all" { outs.extend(stage_plans(args, 9000 * scale, 0xC01, true, false)); outs.extend(stage_fragments(args, 24 * scale)); }
+    if which == "c01" || which == "all" { outs.extend(stage_plans(args, 9000 * scale, 0xC01, true, false)); outs.extend(stage_fragments(args, 24 * scale)); outs.extend(stage_ringwrap(args, 24 * scale)); }
     if which == "c04" || which == "all" { outs.extend(stage_plans(args, 6000 * scale, 0xC04, true, true)); }
     if which == "c05" || which == "all" { outs.extend(stage_pairs(args, 3500 * scale)); outs.extend(stage_alloc_big(args)); }
     if which == "c20" || which == "all" {
         outs.extend(stage_exhaustive(args));
         outs.extend(stage_random_contract(args, 3000 * scale));
     }
+    if thorough && (which == "c01" || which == "all" || which == "bigring") || which == "bigring" { stage_bigring(&mut rep); }
     for (o, a) in pre_lines { corr.case(&o, &a); }
     for t in outs {
         for (o, a) in t.lines { corr.case(&o, &a); }
